@@ -11,7 +11,7 @@ if [ -n "${IN_PLACE:-}" ]; then
   out=$(VERIF_REPLAY_DIR=/tmp/seeded-replays/$d ./check $prop $tier --no-evidence 2>&1); rc=$?
   git -C /repo checkout -- .
 else
-  S=/tmp/snt-seeded
+  S=/tmp/snt-seeded-$$
   git -C /repo worktree remove --force $S >/dev/null 2>&1; rm -rf $S
   git -C /repo worktree add -q --detach $S HEAD || exit 2
   git -C $S apply "$PWD/seeded/$d/patch.diff" || { echo "$d: patch does not apply to HEAD"; git -C /repo worktree remove --force $S; exit 2; }
